@@ -270,28 +270,58 @@ def print_assumptions(module, theorems, rdir):
     return res, out
 
 
-FORBIDDEN = re.compile(r'\b(Admitted|admit|Axiom|Parameter|Conjecture|Hypothesis\s|Variable\s)|Unset Guard|bypass_check|type-in-type|impredicative-set')
+FORBIDDEN = re.compile(r'\b(Admitted|admit|Axiom|Axioms|Parameter|Parameters|Conjecture|Hypothesis\s|Hypotheses\s|Variable\s|Variables\s|Admit Obligations)\b|Unset Guard|bypass_check|type-in-type|impredicative-set|Unset Positivity|Unset Universe')
+
+
+def strip_comments(text):
+    """Removes (nested) Coq comments, keeping line structure; string literals are respected."""
+    out = []
+    depth = 0
+    i = 0
+    instr = False
+    while i < len(text):
+        c = text[i]
+        if depth == 0 and c == '"':
+            instr = not instr
+            out.append(c)
+            i += 1
+            continue
+        if not instr and text.startswith('(*', i):
+            depth += 1
+            i += 2
+            continue
+        if not instr and depth > 0 and text.startswith('*)', i):
+            depth -= 1
+            i += 2
+            continue
+        if depth > 0:
+            if c == '\n':
+                out.append(c)
+        else:
+            out.append(c)
+        i += 1
+    return ''.join(out)
 
 
 def scan_forbidden():
-    """Greps the development for forbidden vernacular outside sections. Returns list of hits."""
+    """Greps the development for forbidden vernacular (Variable/Hypothesis only outside sections)."""
     hits = []
     for dp, dn, fn in os.walk(COQ):
         for f in fn:
             if not f.endswith('.v'):
                 continue
             depth = 0
-            for n, line in enumerate(open(os.path.join(dp, f)), 1):
-                code = re.sub(r'\(\*.*?\*\)', '', line)
+            code_text = strip_comments(open(os.path.join(dp, f)).read())
+            for n, code in enumerate(code_text.split('\n'), 1):
                 if re.match(r'\s*Section\b', code):
                     depth += 1
                 if re.match(r'\s*End\b', code) and depth > 0:
                     depth -= 1
                 for m in FORBIDDEN.finditer(code):
                     w = m.group(0).strip()
-                    if w in ('Hypothesis', 'Variable') and depth > 0:
+                    if w in ('Hypothesis', 'Hypotheses', 'Variable', 'Variables') and depth > 0:
                         continue
-                    hits.append('%s:%d: %s' % (os.path.relpath(os.path.join(dp, f), COQ), n, line.strip()))
+                    hits.append('%s:%d: %s' % (os.path.relpath(os.path.join(dp, f), COQ), n, code.strip()))
     return hits
 
 
